@@ -118,6 +118,10 @@ func (x *Exec) evalInt(env *Env, e Expr) string {
 // backingT is the pseudo struct type of slice backing stores (so that ghost fields can be attached to them).
 var backingT = types.NewNamed(types.NewTypeName(0, nil, "backing", nil), types.NewStruct(nil, nil), nil)
 
+// worldT is the pseudo struct type of the single ghost object `world` that carries ghost state which belongs
+// to no Go object (abstract views of durable state, registries seen through interfaces).
+var worldT = types.NewNamed(types.NewTypeName(0, nil, "world", nil), types.NewStruct(nil, nil), nil)
+
 var (
 	tInt  = types.Typ[types.Int]
 	tBool = types.Typ[types.Bool]
@@ -143,6 +147,11 @@ func (e *Env) eval(ex Expr) Val {
 	case *Ident:
 		if v, ok := e.lookup(ex.Name); ok {
 			return e.resolveNameVal(v, e.cur)
+		}
+		if ex.Name == "world" {
+			x.reg.declare("|world|", "Int")
+			x.reg.axiom("|world|", "nn", "(not (= |world| 0))")
+			return TV{"|world|", types.NewPointer(worldT)}
 		}
 		if v, ok := e.pkgObject(e.tctx.pkg, ex.Name); ok {
 			return v
@@ -398,6 +407,8 @@ func (e *Env) index(base, idx Val) Val {
 		return TV{sel(b.A, i), under(b.Ty).(*types.Array).Elem()}
 	case ST:
 		return boolTV(sel(b.A, i))
+	case GM:
+		return TV{sel(b.A, i), b.Elem}
 	case TV:
 		if isMap(b.Ty) {
 			mm := under(b.Ty).(*types.Map)
@@ -595,6 +606,9 @@ func (e *Env) call(c *CallE) Val {
 		p := x.scalar(e.eval(c.Args[0]))
 		x.useTop()
 		return boolTV(and("(> "+p+" "+e.alloc+")", eq("(top "+p+")", p)))
+	case "strless":
+		x.reg.declare("strlt", "(Int Int) Bool")
+		return boolTV("(strlt " + x.scalar(e.eval(c.Args[0])) + " " + x.scalar(e.eval(c.Args[1])) + ")")
 	case "toplevel":
 		// the pointer designates a separately allocated object, not a field or element embedded in another one
 		p := x.scalar(e.eval(c.Args[0]))
@@ -790,6 +804,10 @@ func (x *Exec) ghostKeys(structT types.Type, g *GhostField, tctx *typeCtx) []str
 		x.regKey(base, "(Array Int (Array "+sortOf(t.Elem.Go)+" Bool))")
 		return []string{base}
 	}
+	if m, ok := under(t.Go).(*types.Map); ok {
+		x.regKey(base, "(Array Int (Array "+sortOf(m.Key())+" "+sortOf(m.Elem())+"))")
+		return []string{base}
+	}
 	x.regKey(base, arrSort(t.Go))
 	return []string{base}
 }
@@ -804,6 +822,9 @@ func (e *Env) ghostLoad(structT types.Type, g *GhostField, obj string) Val {
 		return SQ{A: sel(x.hget(e.cur, base+"#a"), obj), O: "0", L: sel(x.hget(e.cur, base+"#l"), obj), Elem: *t.Elem}
 	case "set":
 		return ST{A: sel(x.hget(e.cur, base), obj), Elem: *t.Elem}
+	}
+	if m, ok := under(t.Go).(*types.Map); ok {
+		return GM{A: sel(x.hget(e.cur, base), obj), Elem: m.Elem()}
 	}
 	return TV{sel(x.hget(e.cur, base), obj), t.Go}
 }
@@ -840,6 +861,8 @@ func (x *Exec) ghostStore(st *State, env *Env, ga GhostAssign) {
 		x.hset(st, key+"#a", store(x.hget(st.H, key+"#a"), tv.T, arr))
 		x.hset(st, key+"#l", store(x.hget(st.H, key+"#l"), tv.T, r.L))
 	case ST:
+		x.hset(st, key, store(x.hget(st.H, key), tv.T, r.A))
+	case GM:
 		x.hset(st, key, store(x.hget(st.H, key), tv.T, r.A))
 	default:
 		x.hset(st, key, store(x.hget(st.H, key), tv.T, x.scalar(rhs)))
@@ -1053,13 +1076,14 @@ func autoTrigger(body string, names, decl []string, cov bool) (string, []string,
 			if n.kids == nil {
 				return
 			}
-			if n.head() == "select" && len(n.kids) == 3 {
-				ix := n.kids[2]
-				if ix.kids == nil && ix.atom == v {
-					direct++
-				}
-				if ix.head() == "+" && len(ix.kids) == 3 && ix.kids[2].kids == nil && ix.kids[2].atom == v && !ix.kids[1].contains(v) {
-					offs[ix.kids[1].String()]++
+			if h := n.head(); h != "" && !interpretedHeads[h] {
+				for _, ix := range n.kids[1:] {
+					if ix.kids == nil && ix.atom == v {
+						direct++
+					}
+					if ix.head() == "+" && len(ix.kids) == 3 && ix.kids[2].kids == nil && ix.kids[2].atom == v && !ix.kids[1].contains(v) {
+						offs[ix.kids[1].String()]++
+					}
 				}
 			}
 			for _, k := range n.kids {
@@ -1113,14 +1137,26 @@ func autoTrigger(body string, names, decl []string, cov bool) (string, []string,
 	}
 	var cands []cand
 	seen := map[string]bool{}
-	var collect func(n *sx, underQuant bool)
-	collect = func(n *sx, underQuant bool) {
+	var collect func(n *sx, inner []string)
+	collect = func(n *sx, inner []string) {
 		if n.kids == nil {
 			return
 		}
 		h := n.head()
-		if h == "forall" || h == "exists" {
-			return // do not pick triggers from nested quantifier bodies
+		if (h == "forall" || h == "exists") && len(n.kids) >= 3 {
+			// nested quantifier: terms over the outer variables only may still serve as triggers
+			in2 := append([]string(nil), inner...)
+			for _, d := range n.kids[1].kids {
+				if len(d.kids) > 0 {
+					in2 = append(in2, d.kids[0].atom)
+				}
+			}
+			collect(n.kids[2], in2)
+			return
+		}
+		if h == "!" && len(n.kids) >= 2 {
+			collect(n.kids[1], inner)
+			return
 		}
 		if !interpretedHeads[h] && h != "" && h != ":pattern" {
 			vs := map[string]bool{}
@@ -1130,8 +1166,13 @@ func autoTrigger(body string, names, decl []string, cov bool) (string, []string,
 				}
 			}
 			bad := n.contains("ite") || n.contains("forall") || n.contains("exists")
+			for _, iv := range inner {
+				if n.contains(iv) {
+					bad = true
+				}
+			}
 			for _, k := range n.kids[1:] {
-				if k.hasInterpreted(names) {
+				if k.hasInterpreted(append(append([]string(nil), names...), inner...)) {
 					bad = true
 				}
 			}
@@ -1144,10 +1185,10 @@ func autoTrigger(body string, names, decl []string, cov bool) (string, []string,
 			}
 		}
 		for _, k := range n.kids {
-			collect(k, underQuant)
+			collect(k, inner)
 		}
 	}
-	collect(tree, false)
+	collect(tree, nil)
 	// keep innermost candidates: drop a candidate if a strict sub-candidate covers the same variables
 	var keep []cand
 	for i, c := range cands {
